@@ -2,19 +2,26 @@
 PROP = dict(
         libs=["explore", "canon"],
         level="model_checking", shards=1,
+        # shared helper package of the two token harnesses (address set, reference relation
+        # "same address", mutation enumerator) as a virtual package
         inject={"internal/verifmc/c14util": ["mc/c14/util/*.go"]},
         targets=[
             dict(name="sph", pkg="internal/ackhandler", test="TestVerifC14Sph", files=["mc/c14/sph/*.go"],
-                 parts=["amp-full", "amp-core", "amp-lean", "amp-deep"]),
+                 parts=["amp-deep", "amp-full", "amp-core", "amp-lean"]),
             dict(name="tok", pkg="internal/handshake", test="TestVerifC14Tok", files=["mc/c14/tok/*.go"],
                  parts=["tok-mutate", "tok-bitpairs"]),
             dict(name="srv", pkg=".", test="TestVerifC14Srv", files=["mc/c14/srv/*.go"],
                  parts=["srv-initial"]),
         ],
-        level_text="TODO",
-        level_note="TODO",
-        technique="explicit-state BFS over the real implementation with reference-model oracle; bounded-exhaustive input enumeration",
-        deadline=dict(quick=60, thorough=600),
-        rule="TODO",
-        assumptions=[],
+        level_text="E1 (sequential) parts of C14, all executed on the real code. (a) Explicit-state BFS over the real server-perspective sentPacketHandler driven exactly like connection.go's run/send loop (ReceivedBytes before processing, DropPackets(Initial)+ReceivedPacket on the first Handshake packet, OnLossDetectionTimeout at the alarm, SendMode consulted before every datagram and obeyed: none / any / ack-only / PTO probe after QueueProbePacket) against a byte ledger: on every prefix, until a Handshake packet is processed, SendMode is none whenever sent >= 3 x received, so sent <= 3 x received + the one datagram begun below the limit. (b) Bounded-exhaustive input enumeration on the real TokenGenerator/tokenProtector and on the real baseServer.handleInitialImpl (decode -> validateToken -> Retry / INVALID_TOKEN / new connection, connection constructor replaced by a recorder): every single-bit flip, every pair of bit flips, every truncation, every one-byte extension, deletions/insertions/substitutions, re-sealing under other keys, splices of valid tokens, 14 addresses x 14 addresses, ages {0, lifetime-1s, lifetime, lifetime+1s} on a synctest virtual clock. Right level because both halves are finite quantifications (op sequences over a small alphabet around the 3x boundary; an explicit mutation list) over sequential code with no concurrency; the whole-connection wire-level part (E2) is a separate check.",
+        level_note="Trusted: the ledger / address-relation reference models in mc/c14, the reflective canonicaliser (connStats write-only counters, logger and qlogger are left out of the state key; times are keyed relative to the harness clock), the depth bounds, testing/synctest's virtual clock. The handler-level ledger counts what ReceivedBytes is told: whether connection.go reports every wire byte exactly once is the E2 part's business (read-only lead: queued undecryptable packets pass through handleOnePacket, hence ReceivedBytes, twice). Token nonces come from crypto/rand; no verdict depends on them (AEAD forgery by a listed mutation has probability 2^-128).",
+        technique="explicit-state BFS over the real implementation with a ledger oracle; bounded-exhaustive input enumeration (token mutations x addresses x ages) with a reference relation",
+        deadline=dict(quick=90, thorough=600),
+        rule="per target: sph = BFS transitions executed on the real sentPacketHandler; tok = calls into the real TokenGenerator (DecodeToken / ValidateRemoteAddr); srv = calls of the real baseServer.handleInitialImpl",
+        assumptions=[
+            "the amplification limit is read as in the anchor: while the address is unvalidated and sent >= 3 x received nothing more may be begun (SendMode none); a datagram begun below the limit may overshoot it by at most its own size; a coalesced Initial+Handshake datagram counts as the one permitted packet",
+            "the sentPacketHandler, pacer and congestion controller depend on time differences only (state keys are clock-translation invariant); the first skipped 1-RTT packet number, drawn from crypto/rand at construction, is pinned to its largest possible value",
+            "address identity of the reference model: UDP addresses by IP bytes (port ignored), other addresses by String(); for the same IP written in another byte form (4 vs 16 bytes) and for age == lifetime exactly the statement is silent and both behaviours are accepted",
+            "Retry-token lifetime = the server's configured Config.maxRetryTokenAge() (handshake timeout), NEW_TOKEN lifetime = Transport.MaxTokenAge as passed to the server; default and short values are both used",
+        ],
     )
